@@ -9,7 +9,7 @@ TRUSTED = [
     "the normalisation theorems are stated about that translation; the translator is validated on every run by rd.fix / "
     "rd.setmonths on raw object states (attributes set directly, then _fix() called)",
     "Model/RelativeDelta.lean (mk, add, sub, neg, abs, addTimedelta, mulInt, bool, eq, hashKey) is hand-written and tied by "
-    "the correspondence ops rd.mk / rd.expr (random expression trees) / rd.bool / rd.eq / rd.hash; the tuple passed to "
+    "the correspondence ops rd.mk / rd.expr (random expression trees) / rd.bool / rd.eq / rd.hash, and rd.add (applyTo, on the values and their weekday n re-spellings: what eq_applyTo rests on); the tuple passed to "
     "hash() is captured in-process (module-level name `hash` shadowed for the duration of the call) and compared with hashKey",
     "the ydayidx literal of __init__ is read from the working tree's AST and compared with the model's table (rd.ydayidx)",
     "EXECUTABLE-ONLY, NOT PROVED: float-valued day/hour/... fields, `*` and `/` by a float and normalized() are checked only "
@@ -26,6 +26,8 @@ TRUSTED = [
 ASSUMPTIONS = [
     "integer field magnitudes below 2**1023: _sign() goes through math.copysign, so relativedelta(seconds=10**400) raises "
     "OverflowError before any value exists (observed; outside the model, reported as a remark)",
+    "\"however constructed or combined\" is read as: through the constructor and the operators; assigning attributes of "
+    "the (mutable, hashable) object directly - d.hours = 100, the d.weeks setter - bypasses _fix and is outside the property",
     "Python's hash of equal tuples of ints/None is equal (CPython guarantee); the theorem is about the tuple that is hashed",
     "asserts enabled (python without -O)",
 ]
@@ -217,6 +219,17 @@ def correspondence(ctx):
         reqs.append("rd.eq %s %s" % (L.rd_wire(a), L.rd_wire(b)))
         exp.append("ok %d %d" % (e, hash(a) == hash(b)))   # hash part checked one-directionally below
     ctx.count("corr_eq_pairs_equal", npair_eq)
+    # (5) applyTo on the values and their weekday re-spellings (the tie eq_applyTo rests on, inside C16's own run)
+    n_add = ctx.budget(3000, 40000)
+    for _ in range(n_add):
+        a = rng.choice(values)
+        if a.weekday is not None and rng.random() < 0.7:
+            a = variant(rng, a)
+        if not L.is_int_valued(a):
+            continue
+        x = L.g_temporal(rng)
+        reqs.append("rd.add %s %s" % (L.rd_wire(a), L.t_wire(x))); exp.append(L.run(lambda: x + a, L.t_show))
+        ctx.count("corr_add")
     got = ctx.driver(reqs)
     for q, e, g in zip(reqs, exp, got):
         if q.startswith("rd.eq "):
@@ -250,6 +263,24 @@ def variant(rng, a):
 # ---------------------------------------------------------------- oracle
 def desc(d):
     return repr(d)
+
+
+def float_twin(d):
+    """the same value with every integral field spelt in the other numeric type (int <-> float)"""
+    from dateutil.relativedelta import relativedelta
+    kw = {}
+    for k in L.REL:
+        v = getattr(d, k)
+        if k in ("years", "months"):
+            kw[k] = float(v)
+        elif isinstance(v, int):
+            kw[k] = float(v) if abs(v) < 2 ** 53 else v
+        else:
+            kw[k] = int(v) if v == int(v) else v
+    for k in L.ABS:
+        kw[k] = getattr(d, k)
+    kw["weekday"] = d.weekday
+    return relativedelta(**kw)
 
 
 def check_value(ctx, d, origin, case):
@@ -393,11 +424,16 @@ def oracle(ctx):
     for _ in range(ctx.budget(300, 3000)):
         f = rng.choice([0.5, 1.5, -2.25, 1e-9, 3.0000001, rng.uniform(-50, 50)])
         which = rng.choice(["years", "months"])
-        case = {"law": "nonint", "field": which, "value": f}
-        ctx.case(("nonint", which, f))
+        import decimal
+        if rng.random() < 0.2:
+            f = rng.choice([fractions.Fraction(1, 2), fractions.Fraction(-7, 3), decimal.Decimal("1.5"), decimal.Decimal("-0.25")])
+        case = {"law": "nonint", "field": which, "value": repr(f)}
+        ctx.case(("nonint", which, repr(f)), nontrivial=False)
         if f != int(f):
+            others = {k: v for k, v in L.g_kw(rng, "c03").items() if k not in ("years", "months")} if rng.random() < 0.6 else {}
+            case["others"] = L.kw_json(others)
             try:
-                relativedelta(**{which: f})
+                relativedelta(**dict(others, **{which: f}))
                 ctx.violation("relativedelta(%s=%r) accepted" % (which, f), case)
             except ValueError:
                 ctx.count("nonint_ValueError")
@@ -437,6 +473,21 @@ def oracle(ctx):
             ctx.violation("normalized() changed the total by more than 2 us: %r -> %r" % (d, nd), case)
         if all(isinstance(v, int) for v in kw.values()) and not (nd == d):
             ctx.violation("normalized() of an integer-valued delta differs: %r -> %r" % (d, nd), case)
+        # the value laws on the FLOAT-valued delta itself (not only on its normalized() form)
+        tin = sum(fractions.Fraction(v) * UNITS[k] for k, v in kw.items() if k in UNITS)
+        if abs(total_us(d) - tin) > fractions.Fraction(1, 100) + abs(tin) / 10 ** 12:
+            ctx.violation("float carry changed the total duration by more than 0.01 us: %r from %r" % (d, kw), case)
+        check_value(ctx, d, "float constructor", case)
+        ctx.count("float_value_laws")
+        tw = float_twin(d)
+        if not (tw == d and d == tw) or hash(tw) != hash(d):
+            ctx.violation("int/float twin differs: %r vs %r (equal=%s, hash-equal=%s)" % (d, tw, tw == d, hash(tw) == hash(d)), case)
+        else:
+            x = L.g_temporal(rng)
+            if L.run(lambda: x + d, L.t_wire) != L.run(lambda: x + tw, L.t_wire):
+                ctx.violation("int/float twins act differently on %s" % (x,), dict(case, x=L.t_wire(x)))
+        if len(ctx.samples) < 6:
+            ctx.sample({"law": "float", "kw": kw, "value": repr(d), "normalized": repr(nd), "twin": repr(tw)})
         # scalar * and /
         f = rng.choice(SCALARS + [rng.uniform(-10, 10), float(rng.randint(-50, 50))])
         check_scalar(ctx, nd, f, case)
@@ -444,8 +495,20 @@ def oracle(ctx):
                   {"days": 10 ** 9, "hours": -23, "weekday": 2}):
         for f in SCALARS:
             check_scalar(ctx, relativedelta(**nd_kw), f, {"law": "float", "kw": nd_kw})
+    for k in (49, 98, 103, 107, 161, 187, 196, 197, 7, 10):
+        check_scalar(ctx, relativedelta(days=k, years=2 * k), k, {"law": "float", "kw": {"days": k, "years": 2 * k}})
     check_nonfinite_fields(ctx)
-    ctx.sample({"law": "float", "example": repr(relativedelta(days=1.5, hours=2).normalized())})
+    # int / float / signed-zero / weekday(n as float) twins, explicitly
+    for a, b in [(relativedelta(days=1), relativedelta(days=1.0)), (relativedelta(days=0), relativedelta(days=-0.0)),
+                 (relativedelta(hours=0.0, seconds=5), relativedelta(seconds=5)),
+                 (relativedelta(weekday=weekday(0, 1.0)), relativedelta(weekday=weekday(0))),
+                 (relativedelta(weekday=weekday(3, 0.0)), relativedelta(weekday=weekday(3, 1))),
+                 (relativedelta(years=2.0, months=-3.0), relativedelta(years=2, months=-3)),
+                 (relativedelta(microseconds=1e6), relativedelta(seconds=1))]:
+        ctx.case(("twin", repr(a), repr(b))); ctx.count("twin_pairs")
+        if not (a == b and b == a) or hash(a) != hash(b) or bool(a) != bool(b):
+            ctx.violation("twins %r / %r: equal=%s hash-equal=%s" % (a, b, a == b, hash(a) == hash(b)),
+                          {"law": "twin", "a": repr(a), "b": repr(b)})
 
 
 INF, NAN = float("inf"), float("nan")
@@ -459,8 +522,10 @@ def rel_all_zero(d):
 
 def check_scalar(ctx, nd, f, case):
     """`nd * f` and `nd / f` for an integer-valued delta nd and any real scalar f (EXECUTABLE-ONLY part).
-    finite f != 0 : each relative field is int(field * f) (resp. int(field * (1/f))), then normalised; for an
-                    integer-valued f with |field*f| < 2**53 that is the exact integer product (= the model's mulInt)
+    finite f != 0 : integer-valued normal form, absolute fields untouched, total within one unit per field of the exact
+                    rational product; for an integer-valued f with
+                    |field*f| < 2**53 `*` is the exact integer product (= the model's mulInt).  How the implementation gets
+                    there (int(field * f)) is NOT part of the expectation.
     f == 0        : `*` clears the relative part, `/` raises ZeroDivisionError
     f = +-inf     : `*` must raise (OverflowError; ValueError when a field is 0: 0*inf = nan), `/` multiplies by 0.0
     f = nan       : both must raise ValueError — never a value with a non-finite field"""
@@ -489,14 +554,24 @@ def check_scalar(ctx, nd, f, case):
         if err:
             ctx.violation("%s by %r raised %s" % (opn, f, err), case2)
             continue
-        ff = float(f) if opn == "mul" else 1 / float(f)
         if not all(isinstance(getattr(r, k), int) for k in L.REL) or not bounds_ok(r) or not has_time_ok(r):
             ctx.violation("%s by %r: fields not integer-normalised: %r" % (opn, f, r), case2)
             continue
-        exp_us = sum(int(getattr(nd, k) * ff) * u for k, u in UNITS.items())
-        exp_m = int(nd.years * ff) * 12 + int(nd.months * ff)
-        if total_us(r) != exp_us or total_months(r) != exp_m:
-            ctx.violation("%s by %r: total differs from the field-wise int(field*f): %r" % (opn, f, r), case2)
+        # the exact rational product; each of the 5 (resp. 2) fields may lose less than one of its own units to the
+        # truncation toward zero (plus float rounding of the factor): nothing about HOW the fields are computed
+        F = fractions.Fraction(f) if opn == "mul" else 1 / fractions.Fraction(f) if cls == "finite" else fractions.Fraction(0)
+        slack_us = sum(UNITS.values()) + abs(total_us(nd) * F) / 10 ** 12
+        slack_m = 13 + abs(total_months(nd) * F) / 10 ** 12
+        if abs(total_us(r) - total_us(nd) * F) > slack_us or abs(total_months(r) - total_months(nd) * F) > slack_m:
+            ctx.violation("%s by %r: total %s is more than one unit per field away from the exact product %s: %r"
+                          % (opn, f, total_us(r), total_us(nd) * F, r), case2)
+        if opn == "div" and cls == "finite" and float(f) == int(f) and int(f) != 0 \
+                and all(getattr(nd, k) % int(f) == 0 for k in L.REL if k != "leapdays") and max_field(nd) < 2 ** 53:
+            ctx.count("scalar_div_exact_quotient_exists")
+            if total_us(r) != total_us(nd) / int(f) or total_months(r) != total_months(nd) / int(f):
+                # e.g. relativedelta(days=49) / 49 == relativedelta(): 49 * (1/49.0) < 1.  The property does not say
+                # what `/` returns, so this is recorded in the evidence, not reported.
+                ctx.count("scalar_div_exact_quotient_missed")
         if any(getattr(r, k) != getattr(nd, k) for k in L.ABS) or r.weekday != nd.weekday or r.leapdays != nd.leapdays:
             ctx.violation("%s by %r changed an absolute field / weekday / leapdays" % (opn, f), case2)
         if (cls == "zero" or (cls == "inf" and opn == "div")) and not rel_all_zero(r):
@@ -523,19 +598,30 @@ def check_nonfinite_fields(ctx):
                 ctx.count("nonfinite_rejected_ValueError")
                 continue
             except Exception as ex:
+                case["outcome"] = "raised:" + type(ex).__name__
                 ctx.violation("relativedelta(%s=%r) raised %s, not ValueError" % (fld, v, type(ex).__name__), case)
                 continue
-            finite = all(isinstance(getattr(d, k), int) or math.isfinite(getattr(d, k)) for k in L.REL)
-            if not finite or not bounds_ok(d) or not (d == d):
-                ctx.violation("relativedelta(%s=%r) is accepted and yields %r: non-finite / not normalised / d != d"
-                              % (fld, v, d), case)
+            case["outcome"] = "accepted:" + repr(d)
+            # +-inf days is a (useless but) well-behaved value: normal form holds and d == d; NaN fields are not
+            if not bounds_ok(d) or not (d == d):
+                ctx.violation("relativedelta(%s=%r) is accepted and yields %r: not normalised / d != d" % (fld, v, d), case)
+            else:
+                ctx.count("nonfinite_accepted_wellbehaved")
 
 
-KNOWN = {
-    # a non-finite float (inf / nan) as a relative keyword argument: accepted silently for days..microseconds
-    # (NaN fields, `d == d` False), OverflowError instead of ValueError for years/months = +-inf
-    "D-C16-nonfinite": lambda v: v["case"].get("law") == "nonfinite_field",
-}
+def _nonfinite_known(v):
+    """D-C16-nonfinite, on the OBSERVED outcome: years/months = +-inf raise OverflowError (instead of ValueError);
+    hours..microseconds = +-inf and days..microseconds / weeks = nan are accepted and leave NaN fields."""
+    c = v["case"]
+    if c.get("law") != "nonfinite_field":
+        return False
+    fld, val, out = c.get("field"), c.get("value"), c.get("outcome", "")
+    if fld in ("years", "months"):
+        return val in ("inf", "-inf") and out == "raised:OverflowError"
+    return out.startswith("accepted:") and "nan" in out
+
+
+KNOWN = {"D-C16-nonfinite": _nonfinite_known}
 
 
 def replay(ctx, payload):
